@@ -109,6 +109,10 @@ class C24(Property):
     ]
     assumptions = [
         "float64 rounding is not modelled (real-number semantics); nan/inf energies are outside the theorems (correspondence only)",
+        "the numeric type of the argument decides numpy's working precision: a float32 energy gives float32 accuracy (1e-7), a float16 energy "
+        "overflows to nan; the statement is read for float64 / Python-float / integer arguments (Accelerator converts with float())",
+        "strict monotonicity is a statement over the reals: neighbouring float64 energies (1-10 ulp apart) often give EQUAL wavelengths "
+        "(never an increase); the oracle tests relative separations >= 1e-9",
     ]
     rule = ("energies: 1 eV…10 MeV log grid (8/decade), log-uniform random, typical microscope energies, non-positive "
             "(0, -0.0, negative, -inf) and extreme (denormal, 1e300, inf, nan); reciprocal samplings: 1–3 random components; "
@@ -177,11 +181,11 @@ class C24(Property):
             sig = call(en.energy2sigma, E)
             if lam[0] != "ok" or not (lam[1] > 0) or not isinstance(lam[1], float):
                 return ctx.violation("positive-energy-wavelength-not-positive-float", c, {"observed": repr(lam)})
-            if rel(lam[1], spec_wavelength(E)) > 1e-13:
+            if not (rel(lam[1], spec_wavelength(E)) <= 1e-13):
                 return ctx.violation("wavelength-differs-from-hc-over-sqrt", c, {"observed": lam[1], "expected": str(spec_wavelength(E))})
             if sig[0] != "ok" or not (sig[1] > 0):
                 return ctx.violation("positive-energy-sigma-not-positive", c, {"observed": repr(sig)})
-            if rel(sig[1], spec_sigma(E)) > 1e-13:
+            if not (rel(sig[1], spec_sigma(E)) <= 1e-13):
                 return ctx.violation("sigma-differs-from-2pi-m-e-lambda-over-h2", c, {"observed": sig[1], "expected": str(spec_sigma(E))})
             # relativistic mass: M c^2 = m c^2 + e E ; energy-momentum relation with p = h / lambda
             k = consts()
@@ -195,6 +199,19 @@ class C24(Property):
             lhs = (p * k["c"]) ** 2 + (k["m"] * k["c"] ** 2) ** 2
             if abs(lhs - (M * k["c"] ** 2) ** 2) / lhs > Decimal("1e-12"):
                 return ctx.violation("energy-momentum-relation", c, {"lhs": str(lhs), "rhs": str((M * k['c'] ** 2) ** 2)})
+            # argument types: the same number passed as int / numpy scalar gives the same result; a float32 argument makes numpy
+            # evaluate in float32 (working precision follows the argument, IEEE assumption) and is held to float32 accuracy only
+            for conv, tol_t in ((np.float64, 1e-13), (int, 1e-13), (np.int64, 1e-13), (np.float32, 1e-6)):
+                Ec = conv(E)
+                if float(Ec) != E:
+                    continue
+                with np.errstate(all="ignore"):
+                    lt, st = en.energy2wavelength(Ec), en.energy2sigma(Ec)
+                    at = en.reciprocal_space_sampling_to_angular_sampling((conv(1) if conv is not int else 1, 0.25), Ec)
+                if not (rel(float(lt), spec_wavelength(E)) <= tol_t) or not (rel(float(st), spec_sigma(E)) <= tol_t) or not (
+                        rel(float(at[1]), spec_wavelength(E) * 250) <= tol_t):
+                    return ctx.violation(f"closed-forms-differ-for-{conv.__name__}-energy", c,
+                                         {"wavelength": float(lt), "sigma": float(st), "expected_wavelength": str(spec_wavelength(E))})
             # the Accelerator front end gives the same numbers
             acc = en.Accelerator(energy=E)
             if acc.wavelength != lam[1] or acc.sigma != sig[1]:
@@ -237,9 +254,9 @@ class C24(Property):
             bad = []
             if u.J != 1 / u._e or u.C != 1 / u._e:
                 bad.append("J,C != 1/e")
-            if abs(u.kg * u._amu - 1) > 1e-15:
+            if not (abs(u.kg * u._amu - 1) <= 1e-15):
                 bad.append("kg != 1/amu")
-            if abs(u.s ** 2 / (1e20 * u._e / u._amu) - 1) > 1e-14:
+            if not (abs(u.s ** 2 / (1e20 * u._e / u._amu) - 1) <= 1e-14):
                 bad.append("s^2 != 1e20 e/amu")
             if bad:
                 return ctx.violation("ase-unit-relations", c, {"failed": bad})
